@@ -191,7 +191,10 @@ ImmReleasable(m, k, S, D) ==
     ELSE IF k.kind = "dp" THEN (IF k.app \in DOMAIN D THEN D[k.app] ELSE 0) = 0 \/
                                Cardinality({ip \in DOMAIN m : HasPrefix(m[ip].key, KeyPrefixOf(k))}) > (IF k.app \in DOMAIN D THEN D[k.app] ELSE 0)
     ELSE TRUE
-G0 == [bindown |-> Emp, filt |-> Emp, sizeAt |-> Emp, everRel |-> {}, apiops |-> {}]
+RetOk(e) == Has(e, "ret") /\ Has(e.ret, "ok") /\ e.ret.ok
+RetFail(e) == Has(e, "ret") /\ Has(e.ret, "ok") /\ ~e.ret.ok
+RetRes(e) == IF Has(e, "ret") /\ Has(e.ret, "res") THEN e.ret.res ELSE ""
+G0 == [bindown |-> Emp, filt |-> Emp, sizeAt |-> Emp, everRel |-> {}, apiops |-> {}, assigned |-> Emp, orphan |-> {}]
 GhostNext(e, w) ==
     LET g == ghost
         g1 == IF e.ev = "StartBind" THEN [g EXCEPT !.bindown = Put(g.bindown, e.op, KeyIPs(mem, KeyOf(pods[e.pod])))] ELSE g
@@ -203,17 +206,23 @@ GhostNext(e, w) ==
                   THEN [g1 EXCEPT !.sizeAt = Put(g1.sizeAt, e.op, poolobj[e.args.key.pool].size)]
                 ELSE g1
         g3 == IF e.ev = "StartPoolUpsert" THEN [g2 EXCEPT !.sizeAt = Put(g2.sizeAt, e.op, e.size)] ELSE g2
-        g4 == IF e.ev = "StartApiRelease" THEN [g3 EXCEPT !.apiops = g3.apiops \cup {e.op}] ELSE g3
+        g4a == IF e.ev = "StartApiRelease" THEN [g3 EXCEPT !.apiops = g3.apiops \cup {e.op}] ELSE g3
+        \* provider assignments made by a bind that afterwards failed: nobody will ever unassign them (finding G)
+        g4b == IF e.ev = "Step" /\ e.typ = "bind" /\ e.call = "AssignIP" /\ RetOk(e)
+                 THEN [g4a EXCEPT !.assigned = Put(g4a.assigned, e.op, (IF e.op \in DOMAIN g4a.assigned THEN g4a.assigned[e.op] ELSE {}) \cup {e.args.ip})]
+                 ELSE g4a
+        g4c == IF e.ev = "Step" /\ e.typ = "bind" /\ Has(e, "res") /\ Has(e.res, "ok") /\ ~e.res.ok /\ e.op \in DOMAIN g4b.assigned
+                 THEN [g4b EXCEPT !.orphan = g4b.orphan \cup g4b.assigned[e.op]] ELSE g4b
+        g4 == IF e.ev = "Step" /\ e.call = "UnAssignIP" /\ RetOk(e) /\ e.args.ip \notin DOMAIN w.cloud
+                THEN [g4c EXCEPT !.orphan = g4c.orphan \ {e.args.ip}] ELSE g4c
         rel == {w.mem[ip].key : ip \in {x \in DOMAIN w.mem : ~IsFree(w.mem[x]) /\ w.mem[x].key.pod # "" /\
                                                               ImmReleasable(w.mem, w.mem[x].key, w.sts, w.dp)}}
     IN [g4 EXCEPT !.everRel = (g4.everRel \cup rel) \ (IF e.ev = "CreatePod" THEN {k \in g4.everRel : k.pod = e.pod} ELSE {})]
 
-RetOk(e) == Has(e, "ret") /\ Has(e.ret, "ok") /\ e.ret.ok
-RetFail(e) == Has(e, "ret") /\ Has(e.ret, "ok") /\ ~e.ret.ok
-RetRes(e) == IF Has(e, "ret") /\ Has(e.ret, "res") THEN e.ret.res ELSE ""
 StepViolations(e, w) ==
-    LET V(name, bad) == IF bad THEN {[prop |-> name, line |-> l, trace |-> tid, ev |-> e.ev,
-                                      call |-> IF Has(e, "call") THEN e.call ELSE "", typ |-> IF Has(e, "typ") THEN e.typ ELSE ""]} ELSE {}
+    LET VT(name, bad, tag) == IF bad THEN {[prop |-> name, line |-> l, trace |-> tid, ev |-> e.ev, tag |-> tag,
+                                            call |-> IF Has(e, "call") THEN e.call ELSE "", typ |-> IF Has(e, "typ") THEN e.typ ELSE ""]} ELSE {}
+        V(name, bad) == VT(name, bad, "")
         P == w.pods
         isStep == e.ev = "Step"
         bindOk == isStep /\ e.call = "binding" /\ RetRes(e) = "ok"
@@ -292,12 +301,15 @@ StepViolations(e, w) ==
     \cup V("ReservedNotAllocated",
            w.alive /\ \E ip \in (DOMAIN w.store) \cap (DOMAIN w.mem) : w.store[ip].lab /\ ~IsFree(w.mem[ip]) /\ ~w.mem[ip].lab)
     (* ---------------- C10 *)
-    \cup V("CloudSingleNode",
-           isStep /\ e.call = "AssignIP" /\ RetOk(e) /\ e.args.ip \in DOMAIN cloud /\ cloud[e.args.ip] # e.args.node)
+    \cup VT("CloudSingleNode",
+            isStep /\ e.call = "AssignIP" /\ RetOk(e) /\ e.args.ip \in DOMAIN cloud /\ cloud[e.args.ip] # e.args.node,
+            \* tag "rebind-after-failed-bind": the provider's assignment was left by a bind that failed after assigning
+            IF isStep /\ e.call = "AssignIP" /\ e.args.ip \in ghost.orphan THEN "rebind-after-failed-bind" ELSE "")
     \cup V("LiveAssignedToOwnNode",
            CloudOn /\ bindOk /\ \E ip \in ann : ip \notin DOMAIN w.cloud \/ w.cloud[ip] # node)
-    \cup V("UnassignBeforeHandover",
-           CloudOn /\ e.ev \notin {"Crash", "Restart"} /\ \E ip \in freed \cup rekeyed : ip \in DOMAIN cloud)
+    \cup VT("UnassignBeforeHandover",
+            CloudOn /\ e.ev \notin {"Crash", "Restart"} /\ \E ip \in freed \cup rekeyed : ip \in DOMAIN cloud,
+            IF \A ip \in (freed \cup rekeyed) \cap (DOMAIN cloud) : ip \in ghost.orphan THEN "rebind-after-failed-bind" ELSE "")
     (* ---------------- C18 *)
     \cup V("NoPanic", e.ev = "Panic")
     \cup V("NoHang", e.ev = "Hang")
